@@ -86,7 +86,9 @@ def eval_own(c, rec):
             import datetime
             for nm, extra, cr in (('expiry-150y', {'expires': datetime.timedelta(days=365 * 150)}, cc['created']),
                                   ('created-2110', {}, 4418064000),
-                                  ('trust-300', {'trust': (300, 120)} if cc['label'].startswith('cert') else None, cc['created'])):
+                                  ('trust-300', {'trust': (300, 120)} if cc['label'].startswith('cert') else None, cc['created']),
+                                  ('recipient-v5', {'intended_recipients': [pgpy.types.Fingerprint('0123456789ABCDEF' * 4)]}, cc['created']),
+                                  ('recipient-odd', {'intended_recipients': [pgpy.types.Fingerprint('0123456789ABCDEF' * 3)]}, cc['created'])):
                 if extra is None:
                     continue
                 try:
@@ -116,6 +118,13 @@ def eval_own(c, rec):
             spec = c['msg']
             msg = enckit.build_pgpy_message(spec)
             blobs.append(('message', bytes(msg)))
+            # a format marker that does not fit its one-octet field: refused, or a packet that parses back
+            for fmt in ('utf8', '', 'tu'):
+                try:
+                    blobs.append(('message-with-format-%r' % fmt, bytes(pgpy.PGPMessage.new(bytes.fromhex(spec['body'])[:40].decode('latin-1'), format=fmt))))
+                    rec.note('overflow-value-emitted/format-%r' % fmt)
+                except Exception:   # noqa
+                    rec.note('overflow-value-refused/format-%r' % fmt)
             encm, _ = enckit.pgpy_encrypt(msg, c['recips'], c['cipher'])
             blobs.append(('encrypted-message', bytes(encm)))
             # objects derived through copy.copy emit packets as well
@@ -268,7 +277,7 @@ BUILDERS = {
     'skesk': lambda a, b: (3, renc.skesk_build([9, 7, 3][a % 3], rs2k.Spec(['iterated', 'salted', 'simple'][b % 3], [8, 2][a % 2], b'' if b % 3 == 2 else b'saltSALT', 200 if b % 3 == 0 else None), 'pw',
                                                bytes(range([32, 16, 16][a % 3])) if a % 2 else None)),
     'skesk-v5-unknown': lambda a, b: (3, b'\x05' + bytes(a % 30)),
-    'onepass': lambda a, b: (4, bytes([3, [0, 1][a % 2], [8, 2][b % 2], [1, 17, 19, 22][a % 4]]) + bytes(range(8)) + bytes([b % 2])),
+    'onepass': lambda a, b: (4, bytes([3, [0, 1][a % 2], [8, 2][b % 2], [1, 17, 19, 22][a % 4]]) + bytes(range(8)) + bytes([[0, 1, 2, 0x80, 0xFF][b % 5]])),
     'onepass-v4-unknown': lambda a, b: (4, b'\x04' + bytes(12)),
     'pubkey': lambda a, b: b_pub(keypool.ids()[a % len(keypool.ids())], 6, [None, 0, (1 << 32) - 1][b % 3]),
     'pubsubkey': lambda a, b: b_pub(keypool.ids()[a % len(keypool.ids())], 14),
@@ -407,6 +416,10 @@ def eval_foreign(c, rec):
                             'subpackets whose value differs after re-serialisation: %r' % [(a[0], a[1], a[3].hex()[:16]) for a in sorted(set(v0) ^ set(v1))][:6])
         except (wire.WireError, IndexError):
             pass
+    # one-pass signature: zero = another one follows, any other value = the last one (RFC 4880 5.4); the meaning survives re-serialisation
+    if tag == 4 and body[:1] == b'\x03' and len(body) == 13 and len(q[0].body) == 13:
+        if (body[12] != 0) != (q[0].body[12] != 0) or body[:12] != q[0].body[:12]:
+            rec.finding('foreign-roundtrip', 'field-values-change/onepass/last-flag', case, 'flag octet %02x written back as %02x' % (body[12], q[0].body[12]))
     # a copy of the parsed packet object (copies are what derived keys, copied messages and copied signatures are made of) emits the same octets
     try:
         import copy
